@@ -34,6 +34,7 @@ OVERLAY = os.path.join(VERIF, "overlay", "src")
 APPEND = {
     "lib.rs": [
         "#[cfg(kani)] mod vcollections;",
+        "#[cfg(not(kani))] mod vcollections { pub use std::collections::*; }",
         "#[cfg(kani)] mod kani_verif;",
     ],
     "core/nike.rs": [
@@ -112,6 +113,25 @@ def rewrite_uses(text, report, relpath):
     return USE_RE.sub(repl, text)
 
 
+QUAL_RE = re.compile(r"^(?!#|use )(.*?)\bstd::collections::(LinkedList|HashMap|HashSet)\b", re.M)
+
+
+def rewrite_qualified(text, report, relpath):
+    """Fully qualified `std::collections::{LinkedList,HashMap,HashSet}` paths inside
+    bodies (one occurrence in revision_map.rs) would not type-check against the
+    substituted containers; the path prefix (and nothing else) is switched under
+    cfg(kani) by duplicating the enclosing line is not possible inside an
+    expression, so the prefix is rewritten to `crate::vcollections::` and
+    `vcollections` is also compiled (as a re-export of std) when cfg(kani) is off."""
+    def repl(m):
+        report.append({"file": relpath, "line": " ".join(m.group(0).split())})
+        return m.group(1) + "crate::vcollections::" + m.group(2)
+    # only outside `#[cfg(test)] mod tests`: cut the text there
+    cut = text.find("#[cfg(test)]\nmod tests")
+    head, tail = (text, "") if cut < 0 else (text[:cut], text[cut:])
+    return QUAL_RE.sub(repl, head) + tail
+
+
 def main():
     args = sys.argv[1:]
     repo = "/repo"
@@ -128,7 +148,7 @@ def main():
                     "--exclude", "/benches", "--exclude", "/examples", "--exclude", "/bib",
                     repo.rstrip("/") + "/", dst + "/.pristine/"], check=True)
     pristine = os.path.join(dst, ".pristine")
-    report = {"rewritten_uses": [], "appended": {}, "overlay_files": [], "missing_anchor_files": []}
+    report = {"rewritten_uses": [], "rewritten_paths": [], "appended": {}, "overlay_files": [], "missing_anchor_files": []}
     # regenerate the working copy from the pristine mirror, writing only changed files
     for root, dirs, files in os.walk(pristine):
         rel = os.path.relpath(root, pristine)
@@ -142,6 +162,7 @@ def main():
                 key = relf[len("src" + os.sep):]
                 text = data.decode()
                 text = rewrite_uses(text, report["rewritten_uses"], relf)
+                text = rewrite_qualified(text, report["rewritten_paths"], relf)
                 if key in APPEND:
                     if not text.endswith("\n"):
                         text += "\n"
